@@ -44,8 +44,8 @@ def _impl_valid(ns, w, ov):
     from ibldsp.utils import WindowGenerator
     try:
         v = [tuple(int(x) for x in q) for q in WindowGenerator(ns, w, ov).firstlast_valid]
-    except AssertionError:
-        return 'err Assertion'
+    except Exception as e:          # odd overlap: rejected (the exception class is not part of the property)
+        return 'err ' + type(e).__name__
     return 'ok ' + (';'.join(','.join(map(str, q)) for q in v) or '-')
 
 
@@ -72,8 +72,8 @@ def _impl_same_object(ns, w, ov):
         try:
             v = [tuple(int(x) for x in q) for q in wg.firstlast_valid]
             vs = 'ok ' + (';'.join(','.join(map(str, q)) for q in v) or '-')
-        except AssertionError:
-            vs = 'err Assertion'
+        except Exception as e:
+            vs = 'err ' + type(e).__name__
         sl = [(int(sl.start), int(sl.stop)) for sl in wg.slice]
         amps = []
         for f, l, a in wg.firstlast_splicing:
